@@ -24,6 +24,8 @@
 
    REPAIR notes/pending/C20-uint64-float.diff: an unsigned integer above MaxInt64 becomes the Float
    nearest to it (the pinned tree converts it with Int(v.Uint()), which wraps to a negative Int).
+   REPAIR notes/pending/C20-nil-marshaler.diff: a nil pointer that implements Marshaler is Null (the
+   pinned tree calls MarshalValue through it and panics).
 
    Identity of lists and maps: the model threads a counter of fresh ids; 0 is the identity of
    nil collections (data pointer 0) and 1 that of every empty non-nil list (make(List, 0)
@@ -53,7 +55,6 @@ Inductive goval :=
 
 Definition e_map_keys := Eval vm_compute in b "map keys must be strings".
 Definition e_unexpected_type := Eval vm_compute in b "unexpected data type".
-Definition e_nil_receiver := Eval vm_compute in b "value method called using nil pointer".
 
 (* float64(u) for an unsigned integer 2^63 <= u < 2^64 (Go: conversion of an integer to a floating-point
    type rounds to the nearest representable value, ties to even); float64 values are 2^11 apart there *)
@@ -152,10 +153,9 @@ Section Convert.
     | GPtr (Some g') => conv (match ctx with CSlot => CPtr | _ => CDeep end) g' n
     | GIface None => Ok (VNull, n)
     | GIface (Some g') => conv (match ctx with CSlot => CSlot | _ => CDeep end) g' n
-    | GNilPtrTo true =>
-        (* at the argument itself the nil *T IS a Marshaler: MarshalValue is called through the nil
-           pointer and panics; one level down it is just a nil pointer *)
-        match ctx with CSlot => Err e_nil_receiver | _ => Ok (VNull, n) end
+    | GNilPtrTo true => Ok (VNull, n)
+        (* REPAIR C20-nil-marshaler: at the argument itself the nil *T IS a Marshaler; the pinned tree calls
+           MarshalValue through the nil pointer (a panic), the repaired one returns Null as for every nil pointer *)
     | GNilPtrTo false =>
         (* at the argument itself the nil *Int IS a data.Value and is returned as it is: none of the
            eight value types (OutOfModel, see ptr_to_value) *)
